@@ -10,7 +10,7 @@ EXPLANATION = ('Value-flow normal forms of NUTSChain::new (constants, sentinel),
                'eps = exp(mu - sqrt(m)/gamma h_bar), eta\' = m^-kappa, eps_bar = exp((1-eta\') ln eps_bar + eta\' ln eps), else eps := eps_bar), and a crate-wide '
                'write-set analysis of the adaptation fields (who writes epsilon, epsilon_bar, m, n_discard, and under which guard) which gives the freeze: once m > n_discard, '
                'eps = eps_bar and neither changes. Positivity beyond "eps is an exp(.)" and realised acceptance rates are not decided.')
-FLOORS = {'obligations': 43}   # counted on the reference tree; fewer instantiated obligations is reported, never passed silently
+FLOORS = {'obligations': 46}   # counted on the reference tree; fewer instantiated obligations is reported, never passed silently
 TECHNIQUE = 'value-flow normal form vs specification table + crate-wide field write-set (guarded writers) analysis'
 CH = 'nuts::NUTSChain'
 
@@ -166,6 +166,25 @@ def fre(ctx):
         r0, L0 = leap(ls.init[ek])
         ok0 = init_la is logacc(r0, L0)
     ctx.check('C04.fre.logacc0', A, 'logacc0', ok0, expected='first-trial logacc = L\' - L - (r\'.r\' - r.r)/2', found=show(init_la)[:300], sp=sp, why='same acceptance statistic before the loop')
+    # the non-finite guard (if present): halve a scale k from 1 and retry the SAME start point with eps*k until the trial is finite;
+    # the main loop then starts from k_exit/2.  A guard that grows the step (k/half, eps/k) never leaves the non-finite region: a hang.
+    if len(firsts) == 1:
+        f = firsts[0]
+        ks = [k for k in f.lh if f.init[k] is T.ONE and isinstance(f.next[k], T.Tm)]
+        if len(ks) != 1:
+            ctx.unknown('C04.fre.guard.halve', A, 'guard-scale', why='scale variable of the non-finite guard not recognised', sp=f.sp)
+        else:
+            kk = ks[0]
+            kn = f.next[kk]
+            ctx.eq('C04.fre.guard.halve', A, 'guard-scale', kn, T.mul(f.lh[kk], HALF), sp=f.sp,
+                   why='each retry halves the trial step (k := k/2): the guard must move towards the region where the trial is finite, otherwise it never terminates')
+            r1g, L1g = leap(kn)        # eps starts at 1, so the trial step is k
+            trial_ok = any(f.next[k] is L1g for k in f.lh if isinstance(f.next[k], T.Tm)) and any(f.next[k] is r1g for k in f.lh if isinstance(f.next[k], T.Tm))
+            ctx.check('C04.fre.guard.trial', A, 'guard-trial', trial_ok, expected='retry = one leapfrog of size k (eps = 1) from the SAME start point (theta, r, grad); its momentum and log-density are what the finiteness test reads next',
+                      found='; '.join('%s := %s' % (keyrepr(k), show(f.next[k])[:120]) for k in f.lh if isinstance(f.next[k], T.Tm)), sp=f.sp,
+                      why='a retry whose step does not shrink with k (eps/k, a stale start point) cannot become finite')
+            ctx.eq('C04.fre.guard.start', A, 'main-loop-start', ls.init[ek], T.mul(HALF, f.lx[kk]), alts=[f.lx[kk]], sp=f.sp,
+                   why='the doubling/halving search starts from the step the guard found finite (k_exit, or k_exit/2 as the reference tree does)')
 
 
 def tail(ctx):
